@@ -4,3 +4,5 @@ From Verif.Tie.Parse Require Scan Cargo Npm Nuget Github Gentoo.
 From Verif.Tie.Parse Require ListCursor Debian Rpm Semver Conan.
 From Verif.Tie.Parse Require Scanners Alpm Gem Maven.
 From Verif.Tie.Parse Require RangeCommon RangeTie CranRange DebianRange RpmRange GentooRange ApacheRange NugetRange NpmRange.
+From Verif.Tie.Parse Require RangeOptTie RangeLazyTie AlpineRange AlpmRange GithubRange MattermostRange HexRange GolangRange.
+From Verif.Tie.Parse Require DebianRangeClosed RpmRangeClosed GentooRangeClosed NugetRangeClosed NpmRangeClosed.
